@@ -21,8 +21,10 @@ N == Len(TraceLog)
 VARIABLES l,        \* position in TraceLog
           psz,      \* bytes per page of the run being validated
           aligned,  \* every pointer / page seen so far was page-aligned and well-formed
-          bctx      \* context that owns each buffer (aligned with bufs): Context.buffers bookkeeping
-tvars == <<vars, l, psz, aligned, bctx>>
+          bctx,     \* context that owns each buffer (aligned with bufs): Context.buffers bookkeeping
+          bud,      \* the run being validated uses the buddy allocator
+          blk       \* buddy runs: multi-page blocks handed out as a unit: first page -> [size, live]
+tvars == <<vars, l, psz, aligned, bctx, bud, blk>>
 
 ASSUME HWInit
 
@@ -32,7 +34,7 @@ Is(e) == l <= N /\ Ev.e = e /\ l' = l + 1
 TInit ==
   /\ devs = <<>> /\ out = {} /\ limbo = {} /\ nextV = <<>> /\ vown = <<>> /\ pt = <<>>
   /\ bufs = <<>> /\ held = {} /\ devUsed = {} /\ crashed = FALSE
-  /\ l = 1 /\ psz = 1 /\ aligned = TRUE /\ bctx = <<>>
+  /\ l = 1 /\ psz = 1 /\ aligned = TRUE /\ bctx = <<>> /\ bud = FALSE /\ blk = <<>>
 
 \* ------------------------------------------------------------ logged table
 LPT(s) == [k \in {<<s[i].pid, s[i].v>> : i \in 1..Len(s)} |->
@@ -42,7 +44,53 @@ NoDupKeys(s) == \A i, j \in 1..Len(s) : i # j => <<s[i].pid, s[i].v>> # <<s[j].p
 WellFormed(s) == \A i \in 1..Len(s) : s[i].voff = 0 /\ s[i].poff = 0 /\ s[i].ok = 1
 Pages(bytes) == ((bytes - 1) \div psz) + 1
 Note(dv) == IF dv = {} THEN TRUE ELSE PrintT(<<"DEVIATION", l, dv>>)
-Seen(s) == aligned' = (aligned /\ WellFormed(s)) /\ UNCHANGED <<psz, bctx>>
+Seen(s) == aligned' = (aligned /\ WellFormed(s)) /\ UNCHANGED <<psz, bud, bctx>>
+
+\* ------------------------------------------------------------ buddy blocks
+(* The buddy allocator (devicebuddymemstate.go) serves Remap and every chunk of Distribute with ONE block of
+   2^k >= n pages, aligned to its size, whose first n pages are used; the block returns to the free lists only
+   when all n pages have been released.  So, besides the pages handed out (out), the rest of every live
+   multi-page block is unavailable: its unused tail and the pages already released.  blk tracks these blocks in
+   buddy runs; every page any call obtains must be available, every block aligned, inside its device and
+   disjoint from everything live - the page-level form of Buddy.tla's NoDoubleHandOut / WellFormed. *)
+Pow2Ceil(n) == CHOOSE s \in {1, 2, 4, 8, 16, 32, 64, 128} : s >= n /\ (s = 1 \/ s \div 2 < n)
+ResvOf(B) == UNION {(b..(b + B[b].size - 1)) \ B[b].live : b \in DOMAIN B}
+Resv == ResvOf(blk)
+Avail(p) == p \notin out /\ p \notin Resv
+BlkAfter(B, released) ==
+  LET nb == [b \in DOMAIN B |-> [size |-> B[b].size, live |-> B[b].live \ released]] IN
+  [b \in {x \in DOMAIN nb : nb[x].live # {}} |-> nb[b]]
+\* maximal runs of consecutive pages of the call that go to the same device: the chunks, each one block
+Runs(ds) == {r \in (1..Len(ds)) \X (1..Len(ds)) :
+               /\ r[1] <= r[2] /\ \A k \in r[1]..r[2] : ds[k] = ds[r[1]]
+               /\ (r[1] = 1 \/ ds[r[1] - 1] # ds[r[1]]) /\ (r[2] = Len(ds) \/ ds[r[2] + 1] # ds[r[2]])}
+BlockOK(ps, r, old) ==
+  LET base == ps[r[1]]  size == Pow2Ceil(r[2] - r[1] + 1) IN
+  /\ HasDev(base)
+  /\ \A k \in r[1]..r[2] : ps[k] = base + (k - r[1])                       \* the first pages of the block, in order
+  /\ (base - Dev(DevOfPage(base)).base) % size = 0                           \* aligned to its size
+  /\ base + size <= Dev(DevOfPage(base)).base + Dev(DevOfPage(base)).n       \* inside the device
+  /\ \A p \in base..(base + size - 1) :                                      \* disjoint from everything live
+       p \notin ResvOf(BlkAfter(blk, old)) /\ (p \notin out \/ p \in old)
+     \* (old = the pages this very call releases: Distribute is a sequence of Remaps, a later chunk may obtain
+     \*  what an earlier chunk released, including a block that became free with that release)
+NewBlks(ps, ds) ==
+  LET big == {r \in Runs(ds) : r[2] > r[1]} IN
+  [b \in {ps[r[1]] : r \in big} |->
+     LET r == CHOOSE x \in big : ps[x[1]] = b IN
+     [size |-> Pow2Ceil(r[2] - r[1] + 1), live |-> {ps[k] : k \in r[1]..r[2]}]]
+\* conjuncts added to the calls (they read out' set by the MemAlloc action)
+BudMove(ps, ds, old) == IF bud THEN /\ \A r \in Runs(ds) : BlockOK(ps, r, old)
+                                    /\ blk' = NewBlks(ps, ds) @@ BlkAfter(blk, old)
+                        ELSE blk' = blk
+BudSingles(ps) == IF bud THEN (\A i \in 1..Len(ps) : Avail(ps[i])) /\ blk' = blk
+                  ELSE blk' = blk
+BudRelease == blk' = IF bud THEN BlkAfter(blk, out \ out') ELSE blk
+\* is a block of 2^k >= n pages available on device t
+HasBlock(t, n) ==
+  LET size == Pow2Ceil(n) IN
+  \E k \in 0..((Dev(t).n \div size) - 1) : \A p \in (Dev(t).base + k * size)..(Dev(t).base + k * size + size - 1) : Avail(p)
+AvailPool(T) == CapOf(T) - Cardinality({p \in out \cup Resv : OnAny(p, T)})
 
 \* -------------------------------------------------------------------- calls
 TAlloc ==
@@ -54,7 +102,8 @@ TAlloc ==
      /\ keys \subseteq DOMAIN t
      /\ Alloc(Ev.pid, Ev.dev, [i \in 1..n |-> t[<<Ev.pid, Ev.v + i - 1>>].ppn])
      /\ pt' = t
-  /\ aligned' = (aligned /\ WellFormed(Ev.pt) /\ Ev.voff = 0) /\ UNCHANGED psz
+     /\ BudSingles([i \in 1..n |-> t[<<Ev.pid, Ev.v + i - 1>>].ppn])
+  /\ aligned' = (aligned /\ WellFormed(Ev.pt) /\ Ev.voff = 0) /\ UNCHANGED <<psz, bud>>
   /\ bctx' = Append(bctx, Ev.ctx)
 
 TFree ==
@@ -62,6 +111,7 @@ TFree ==
   /\ Ev.b \in 1..Len(bufs) /\ bufs[Ev.b].v = Ev.v
   /\ \E dv \in SUBSET Deviations :
        /\ Free(Ev.pid, Ev.b, dv) /\ pt' = LPT(Ev.pt) /\ Note(dv)
+  /\ BudRelease
   /\ Seen(Ev.pt)
 
 TRemap ==
@@ -73,7 +123,8 @@ TRemap ==
      /\ \E dv \in SUBSET Deviations :
           /\ Remap(Ev.pid, Ev.v, [i \in 1..n |-> Ev.dev], [i \in 1..n |-> t[<<Ev.pid, Ev.v + i - 1>>].ppn], dv)
           /\ pt' = t /\ Note(dv)
-  /\ aligned' = (aligned /\ WellFormed(Ev.pt) /\ Ev.voff = 0) /\ UNCHANGED <<psz, bctx>>
+     /\ BudMove([i \in 1..n |-> t[<<Ev.pid, Ev.v + i - 1>>].ppn], [i \in 1..n |-> Ev.dev], {pt[k].ppn : k \in keys})
+  /\ aligned' = (aligned /\ WellFormed(Ev.pt) /\ Ev.voff = 0) /\ UNCHANGED <<psz, bud, bctx>>
 
 \* Distribute: every page of the range ends up on one of the listed GPUs and the byte counts returned per GPU
 \* agree with where the pages went.  With a single GPU the implementation leaves the buffer where it is.
@@ -88,14 +139,15 @@ TDist ==
      /\ Len(Ev.ret) = Len(gs)
      /\ IF Len(gs) = 1
         THEN /\ ~crashed /\ keys \subseteq LiveKeys \cap DOMAIN pt /\ t = pt /\ Ev.ret[1] * psz + Ev.retrem[1] = Ev.bytes
-             /\ UNCHANGED vars
+             /\ UNCHANGED <<vars, blk>>
         ELSE LET ds == [i \in 1..n |-> t[<<Ev.pid, Ev.v + i - 1>>].dev] IN
              /\ \A i \in 1..n : \E j \in 1..Len(gs) : gs[j] = ds[i]
              /\ \A j \in 1..Len(gs) : Ev.retrem[j] = 0 /\ Ev.ret[j] = Cardinality({i \in 1..n : ds[i] = gs[j]})
              /\ \E dv \in SUBSET Deviations :
                   /\ Remap(Ev.pid, Ev.v, ds, [i \in 1..n |-> t[<<Ev.pid, Ev.v + i - 1>>].ppn], dv)
                   /\ pt' = t /\ Note(dv)
-  /\ aligned' = (aligned /\ WellFormed(Ev.pt) /\ Ev.voff = 0) /\ UNCHANGED <<psz, bctx>>
+             /\ BudMove([i \in 1..n |-> t[<<Ev.pid, Ev.v + i - 1>>].ppn], ds, {pt[k].ppn : k \in keys})
+  /\ aligned' = (aligned /\ WellFormed(Ev.pt) /\ Ev.voff = 0) /\ UNCHANGED <<psz, bud, bctx>>
 
 TMig ==
   /\ Is("Mig") /\ NoDupKeys(Ev.pt)
@@ -103,7 +155,8 @@ TMig ==
      /\ <<Ev.pid, Ev.v>> \in DOMAIN t
      /\ PrepareMigration(Ev.pid, Ev.v, Ev.gpu, t[<<Ev.pid, Ev.v>>].ppn)
      /\ pt' = t
-  /\ aligned' = (aligned /\ WellFormed(Ev.pt) /\ Ev.voff = 0) /\ UNCHANGED <<psz, bctx>>
+     /\ BudSingles(<<t[<<Ev.pid, Ev.v>>].ppn>>)
+  /\ aligned' = (aligned /\ WellFormed(Ev.pt) /\ Ev.voff = 0) /\ UNCHANGED <<psz, bud, bctx>>
 
 \* One huge buffer allocated and freed at once (moves the virtual cursor across a power-of-two boundary).
 \* Between the two calls the harness found: all n pages mapped, pairwise distinct physical pages, none of them
@@ -113,8 +166,8 @@ TBurn ==
   /\ Ev.v = NextV(Ev.pid)
   /\ Ev.mapped = Ev.n /\ Ev.distinct = 1 /\ Ev.fresh = 1 /\ Ev.indev = 1 /\ Ev.left = 0
   /\ Burn(Ev.pid, Ev.dev, Ev.n)
-  /\ LPT(Ev.pt) = pt
-  /\ aligned' = (aligned /\ WellFormed(Ev.pt) /\ Ev.voff = 0 /\ Ev.wf = 1) /\ UNCHANGED psz
+  /\ LPT(Ev.pt) = pt /\ UNCHANGED blk
+  /\ aligned' = (aligned /\ WellFormed(Ev.pt) /\ Ev.voff = 0 /\ Ev.wf = 1) /\ UNCHANGED <<psz, bud>>
   /\ bctx' = Append(bctx, Ev.ctx)
 
 \* Buddy allocator only (deviation BuddyCorruptsFreeLists): the call handed out a live page.  Terminal.
@@ -122,14 +175,35 @@ TAliased ==
   /\ l <= N /\ Ev.e \in {"Alloc", "Remap", "Dist", "Mig"} /\ l' = l + 1
   /\ NoDupKeys(Ev.pt)
   /\ AliasedEnd(LPT(Ev.pt)) /\ Note({"BuddyCorruptsFreeLists"})
-  /\ Seen(Ev.pt)
+  /\ Seen(Ev.pt) /\ UNCHANGED blk
 
 \* The real code panicked inside a call.  Accepted only where the specification says the call cannot succeed:
 \* the device is exhausted (legitimately, or because of pages a listed deviation leaked), or the as-implemented
 \* Free trips over an entry of another process.
+\* Buddy runs: a call fails when no block is available for it - a pool of single pages is exhausted (Allocate),
+\* or no aligned block of 2^k >= n pages is free on a target device (Remap, a chunk of Distribute, migration),
+\* which fragmentation can cause within capacity.  The panic is legitimate exactly then; otherwise the driver
+\* crashed in a call it should have served.
+BudShouldSucceed ==
+  CASE Ev.op \in {"Alloc", "Launch"} -> AvailPool(Targets(Ev.dev)) >= Pages(Ev.bytes)
+    [] Ev.op = "Burn" -> AvailPool(Targets(Ev.dev)) >= Ev.n
+    [] Ev.op = "Remap" -> \A t \in Targets(Ev.dev) : HasBlock(t, Pages(Ev.bytes))
+    [] Ev.op = "Dist" -> LET n == Pages(Ev.bytes)  G == Len(Ev.gpus)
+                             m == IF n % G = 0 THEN n \div G ELSE 1 IN
+                         \A j \in 1..G : HasBlock(Ev.gpus[j], m)
+    [] Ev.op = "Mig" -> HasBlock(Ev.gpu, 1)
+    [] OTHER -> TRUE
+BudPanic ==
+  /\ ~crashed /\ Ev.op \in {"Alloc", "Launch", "Burn", "Remap", "Dist", "Mig"}
+  /\ crashed' = BudShouldSucceed
+  /\ UNCHANGED <<devs, out, limbo, nextV, vown, pt, bufs, held, devUsed>>
+
 TPanic ==
   /\ Is("Panic")
-  /\ LET dvBefore == devUsed IN
+  /\ IF bud /\ Ev.op \notin {"Free", "CopyOut"}
+     THEN BudPanic
+     ELSE
+     LET dvBefore == devUsed IN
      \/ /\ Ev.op \in {"Alloc", "Launch"} /\ Ev.dev \in DevIds
         /\ \/ OutOfMemory(Targets(Ev.dev), Pages(Ev.bytes), TRUE)
            \/ OutOfMemoryBuddy(Targets(Ev.dev), Pages(Ev.bytes), TRUE)
@@ -152,17 +226,17 @@ TPanic ==
      \/ /\ Ev.op = "CopyOut" /\ Cardinality({b \in 1..Len(bufs) : ~bufs[b].live /\ bctx[b] = Ev.ctx}) >= 2
         /\ SweepCrash
         /\ Note(devUsed' \ dvBefore)
-  /\ UNCHANGED <<psz, aligned, bctx>>
+  /\ UNCHANGED <<psz, bud, aligned, bctx, blk>>
 
 \* A kernel launch (the driver's own allocations were logged as an Alloc before) and a device-to-host copy
 \* leave memory management alone: the table must be exactly what it was.
-TLaunch == Is("Launch") /\ ~crashed /\ NoDupKeys(Ev.pt) /\ LPT(Ev.pt) = pt /\ UNCHANGED vars /\ Seen(Ev.pt)
+TLaunch == Is("Launch") /\ ~crashed /\ NoDupKeys(Ev.pt) /\ LPT(Ev.pt) = pt /\ UNCHANGED <<vars, blk>> /\ Seen(Ev.pt)
 TCopyOut == /\ Is("CopyOut") /\ ~crashed /\ NoDupKeys(Ev.pt) /\ LPT(Ev.pt) = pt
             /\ Ev.b \in LiveBufs /\ bufs[Ev.b].pid = Ev.pid
-            /\ UNCHANGED vars /\ Seen(Ev.pt)
+            /\ UNCHANGED <<vars, blk>> /\ Seen(Ev.pt)
 
 \* end of a history: nothing to check beyond the invariants
-TEnd == Is("End") /\ UNCHANGED <<vars, psz, aligned, bctx>>
+TEnd == Is("End") /\ UNCHANGED <<vars, psz, bud, aligned, bctx, blk>>
 
 \* concatenated traces: a fresh driver on a freshly described platform
 TReset ==
@@ -172,7 +246,7 @@ TReset ==
                  mem |-> {Ev.devs[i].mem[j] : j \in 1..Len(Ev.devs[i].mem)}]]
   /\ out' = {} /\ limbo' = {} /\ nextV' = <<>> /\ vown' = <<>> /\ pt' = <<>>
   /\ bufs' = <<>> /\ held' = {} /\ devUsed' = {} /\ crashed' = FALSE
-  /\ psz' = Ev.psz /\ aligned' = TRUE /\ bctx' = <<>>
+  /\ psz' = Ev.psz /\ aligned' = TRUE /\ bctx' = <<>> /\ bud' = (Ev.buddy = 1) /\ blk' = <<>>
 
 TNext == TAlloc \/ TBurn \/ TAliased \/ TFree \/ TRemap \/ TDist \/ TMig \/ TLaunch \/ TCopyOut \/ TPanic \/ TEnd \/ TReset
 
